@@ -302,8 +302,12 @@ fn cmd_check(args: &[String]) -> i32 {
     let mut other_props: BTreeMap<String, u64> = BTreeMap::new();
     let mut harness_errors: Vec<String> = Vec::new();
     let mut sum_wall_ms = 0u64;
+    let runlog = std::env::var("AGSIM_RUNLOG").is_ok();
     for r in rx {
         n_runs += 1;
+        if runlog {
+            eprintln!("run seed={} variant={} events={} virt_ms={} wall_ms={} capped={} nontrivial={} viol={:?}", r.seed, r.variant_name, r.events, r.virt_ms, r.wall_ms, r.capped, r.nontrivial, r.violations.iter().map(|v| format!("{}:{}", v.property, v.class)).collect::<Vec<_>>());
+        }
         sum_wall_ms += r.wall_ms;
         virt_ms += r.virt_ms;
         events += r.events;
